@@ -130,4 +130,43 @@ __CPROVER_ensures((res >= 0 && res <= 15 && (!S_FINITE(g->lat) || !S_FINITE(g->l
                   (__CPROVER_return_value == S_ERR_LATLNG_DOMAIN && *out == __CPROVER_old(*out)))
 __CPROVER_ensures((res >= 0 && res <= 15 && S_FINITE(g->lat) && S_FINITE(g->lng)) ==>
                   ((__CPROVER_return_value == S_ERR_SUCCESS && *out != 0) || (__CPROVER_return_value == S_ERR_FAILED && *out == 0)));
+
+/* ---- overflow-guarded aperture-7 steps (C09): for all non-negative int32 inputs no arithmetic UB, result E_SUCCESS or E_FAILED */
+#define AP7_CONTRACT(NAME)                                                                               \
+H3Error NAME##_contract(CoordIJK *ijk)                                                                   \
+__CPROVER_requires(__CPROVER_is_fresh(ijk, sizeof(CoordIJK)) && ijk->i >= 0 && ijk->j >= 0 && ijk->k >= 0) \
+__CPROVER_assigns(*ijk)                                                                                  \
+__CPROVER_ensures(__CPROVER_return_value == S_ERR_SUCCESS || __CPROVER_return_value == S_ERR_FAILED)      \
+__CPROVER_ensures(__CPROVER_return_value == S_ERR_SUCCESS ==> (ijk->i >= 0 && ijk->j >= 0 && ijk->k >= 0 && \
+                  (ijk->i == 0 || ijk->j == 0 || ijk->k == 0)));
+AP7_CONTRACT(_upAp7Checked)
+AP7_CONTRACT(_upAp7rChecked)
+
+H3Error ijToIjk_contract(const CoordIJ *ij, CoordIJK *ijk)
+__CPROVER_requires(__CPROVER_is_fresh(ij, sizeof(CoordIJ)) && __CPROVER_is_fresh(ijk, sizeof(CoordIJK)))
+__CPROVER_assigns(*ijk)
+__CPROVER_ensures(__CPROVER_return_value == S_ERR_SUCCESS || __CPROVER_return_value == S_ERR_FAILED)
+__CPROVER_ensures(__CPROVER_return_value == S_ERR_SUCCESS ==> (ijk->i >= 0 && ijk->j >= 0 && ijk->k >= 0 &&
+                  (ijk->i == 0 || ijk->j == 0 || ijk->k == 0) && ijk->i - ijk->k == ij->i && ijk->j - ijk->k == ij->j));
+
+/* the hash-set insertion of the safe disk: every probe stays inside the maxIdx slots of both arrays (recursive contract) */
+H3Error _gridDiskDistancesInternal_contract(H3Index origin, int k, H3Index *out, int *distances, int64_t maxIdx, int curK)
+__CPROVER_requires(maxIdx >= 1 && maxIdx <= (((int64_t)1) << 40))
+__CPROVER_requires(__CPROVER_is_fresh(out, sizeof(H3Index) * maxIdx) && __CPROVER_is_fresh(distances, sizeof(int) * maxIdx))
+__CPROVER_requires(curK >= 0)
+__CPROVER_assigns(__CPROVER_object_whole(out), __CPROVER_object_whole(distances))
+__CPROVER_ensures(__CPROVER_return_value <= 15);
+
+/* localIjkToCell on arbitrary inputs: memory safety / no arithmetic UB (functional meaning: not decided) */
+H3Error localIjkToCell_safe(H3Index origin, const CoordIJK *ijk, H3Index *out)
+__CPROVER_requires(__CPROVER_is_fresh(ijk, sizeof(CoordIJK)) && __CPROVER_is_fresh(out, sizeof(H3Index)))
+__CPROVER_requires(ijk->i >= 0 && ijk->j >= 0 && ijk->k >= 0)
+__CPROVER_assigns(*out)
+__CPROVER_ensures(__CPROVER_return_value <= 15);
+/* cellToLocalIjk on arbitrary inputs */
+H3Error cellToLocalIjk_safe(H3Index origin, H3Index h3, CoordIJK *out)
+__CPROVER_requires(__CPROVER_is_fresh(out, sizeof(CoordIJK)))
+__CPROVER_assigns(*out)
+__CPROVER_ensures(__CPROVER_return_value <= 15)
+__CPROVER_ensures(S_RES(origin) != S_RES(h3) ==> __CPROVER_return_value == S_ERR_RES_MISMATCH);
 #endif
